@@ -3,6 +3,7 @@ package main
 import (
 	"fmt"
 	"math"
+	"strconv"
 	"strings"
 
 	"harness/sx"
@@ -301,6 +302,13 @@ func hostNumConv(b *variants.Variant, t variants.VariantType) (*variants.Variant
 		f, isf = float64(b.AsFloat()), true
 	case variants.Double:
 		f, isf = b.AsDouble(), true
+	case variants.String:
+		// a string that is a decimal integer (sign, leading zeros allowed) converts to that integer
+		n, err := strconv.ParseInt(b.AsString(), 10, 64)
+		if err != nil || (t != variants.Integer && t != variants.Long) {
+			return nil, false
+		}
+		i = n
 	default:
 		return nil, false
 	}
